@@ -42,6 +42,9 @@ func classifyErrValue(f *ssa.Function, v ssa.Value, at *ssa.BasicBlock, seen map
 	if isErrorCtor(v) {
 		return retError
 	}
+	if cls, ok := nilTestDominates(f, v, at); ok {
+		return cls
+	}
 	if p, ok := v.(*ssa.Phi); ok {
 		var c retClass = -1
 		for _, e := range p.Edges {
@@ -57,7 +60,15 @@ func classifyErrValue(f *ssa.Function, v ssa.Value, at *ssa.BasicBlock, seen map
 		}
 		return c
 	}
-	// dominated by a test of v against nil?
+	if cls, ok := nilTestDominates(f, v, at); ok {
+		return cls
+	}
+	return retUnknown
+}
+
+// nilTestDominates: the block is reached only through the non-nil (error) or
+// only through the nil (success) edge of a test of v against nil.
+func nilTestDominates(f *ssa.Function, v ssa.Value, at *ssa.BasicBlock) (retClass, bool) {
 	for _, b := range f.Blocks {
 		t, fl, i := ifSuccs(b)
 		if i == nil {
@@ -84,14 +95,14 @@ func classifyErrValue(f *ssa.Function, v ssa.Value, at *ssa.BasicBlock, seen map
 		}
 		if nonNilSucc != nilSucc {
 			if blockDominatedByEdge(f, b, nonNilSucc, at) {
-				return retError
+				return retError, true
 			}
 			if blockDominatedByEdge(f, b, nilSucc, at) {
-				return retSuccess
+				return retSuccess, true
 			}
 		}
 	}
-	return retUnknown
+	return retUnknown, false
 }
 
 // blockDominatedByEdge: every path from entry to t uses edge from->to.
